@@ -1041,6 +1041,20 @@ def async_background_batcher(
     return _wrapper
 
 
+class _OneShotAIter:
+    """
+    Lets ``async for`` run over an async iterator which has already been
+    obtained: like the statement itself, ask nothing but ``__anext__``
+    of what an iterable's ``__aiter__`` returned.
+    """
+
+    def __init__(self, iterator: Any):
+        self._iterator = iterator
+
+    def __aiter__(self) -> Any:
+        return self._iterator
+
+
 class AsyncBackgroundBatcher(Generic[A_contra, R_co]):
     """
     Allow single async executions of a function to be batched in the
@@ -1332,11 +1346,13 @@ class AsyncBackgroundBatcher(Generic[A_contra, R_co]):
                 results = self.func(args)
                 # Any async iterable will do: what is iterated (and has
                 # to be finished below) need not be the object returned
-                iterator = results
+                iterator = iterable = results
                 try:
                     if hasattr(results, '__aiter__'):
                         iterator = results.__aiter__()
-                    async for key, result in iterator:
+                        # ``async for`` asks only ``__anext__`` of that
+                        iterable = _OneShotAIter(iterator)
+                    async for key, result in iterable:
                         fut = futs[key]
                         if isinstance(result, StopIteration):
                             # Can't be raised out of a future: awaiting
